@@ -84,7 +84,14 @@ theorem timesIx_asc {e : Enum} (he : EnumOk e) : e.timesIx.Pairwise (fun a b => 
 
 def sel (l : List Nat) (a : Nat) : List Nat := if l.isEmpty then [a % 256] else l.map (· % 256)
 
-theorem makeEnum_eq (p : Inst) (r : Rule) : makeEnum p r = ⟨sel r.H p.H, sel r.M p.M, sel r.S p.S⟩ := rfl
+/-- next to a DATE value BYHOUR / BYMINUTE / BYSECOND are ignored -/
+theorem makeEnum_allDay (p : Inst) (r : Rule) (h : p.H = allDay) :
+    makeEnum p r = ⟨[p.H % 256], [p.M % 256], [p.S % 256]⟩ := by
+  unfold makeEnum; rw [if_pos h]
+
+theorem makeEnum_timed (p : Inst) (r : Rule) (h : p.H ≠ allDay) :
+    makeEnum p r = ⟨sel r.H p.H, sel r.M p.M, sel r.S p.S⟩ := by
+  unfold makeEnum; rw [if_neg h]; rfl
 
 theorem mem_sel {l : List Nat} {a x : Nat} (h : x ∈ sel l a) : (l = [] ∧ x = a % 256) ∨ (∃ b ∈ l, x = b % 256) := by
   unfold sel at h
@@ -104,10 +111,15 @@ theorem pw_sel {R : Nat → Nat → Prop} {l : List Nat} (a : Nat) (h : l.Pairwi
   · exact List.pairwise_singleton _ _
   · rw [List.pairwise_map]; exact h
 
-theorem makeEnum_ok (r : Rule) (p : Inst) (hr : WfRule r) (hp : WfInst p) (ht : TimeOk r p) : EnumOk (makeEnum p r) := by
-  rw [makeEnum_eq]
-  have hpM : p.M < 60 ∧ p.S < 60 := by
-    rcases hp.time with ⟨_, h2, h3⟩ | ⟨_, h2, h3⟩ <;> omega
+theorem makeEnum_ok (r : Rule) (p : Inst) (hr : WfRule r) (hp : WfInst p) : EnumOk (makeEnum p r) := by
+  rcases hp.time with ⟨h1, h2, h3⟩ | ⟨h1, h2, h3⟩
+  · rw [makeEnum_allDay p r h1, h1, h2, h3]
+    refine ⟨List.pairwise_singleton _ _, List.pairwise_singleton _ _, List.pairwise_singleton _ _, ?_, ?_, ?_⟩
+    · intro mi hmi; rw [List.mem_singleton.1 hmi]; decide
+    · intro s hs; rw [List.mem_singleton.1 hs]; decide
+    · intro h hh; rw [List.mem_singleton.1 hh]; exact Or.inr ⟨by decide, rfl, rfl⟩
+  have hnd : p.H ≠ allDay := by unfold allDay; omega
+  rw [makeEnum_timed p r hnd]
   refine ⟨?_, ?_, ?_, ?_, ?_, ?_⟩
   · refine pw_sel _ (hr.hours.1.imp_of_mem ?_)
     intro a b ha hb hlt
@@ -127,15 +139,9 @@ theorem makeEnum_ok (r : Rule) (p : Inst) (hr : WfRule r) (hp : WfInst p) (ht : 
     · omega
     · have := hr.secs.2 b hb; omega
   · intro h hh
-    show h < 24 ∨ (h = 255 ∧ sel r.M p.M = [0] ∧ sel r.S p.S = [0])
+    left
     rcases mem_sel hh with ⟨hnil, h⟩ | ⟨b, hb, h⟩
-    · rcases hp.time with ⟨h1, h2, h3⟩ | ⟨h1, _, _⟩
-      · obtain ⟨e1, e2⟩ := ht h1 hnil
-        right
-        rw [e1, e2, sel_nil, sel_nil, h2, h3]
-        unfold allDay at h1
-        exact ⟨by omega, rfl, rfl⟩
-      · left; omega
-    · have := hr.hours.2 b hb; left; omega
+    · omega
+    · have := hr.hours.2 b hb; omega
 
 end Echse.Lemmas.RrOkBase
